@@ -311,6 +311,14 @@ def r5(ctx, r):
             r.instance()
             r.expect(la.holds(f, e, SYNC), f, e, "ParkGuard dies without lock", "the ParkGuard destructor (counter decrement) runs on a path where syncMutex is not held",
                      okdesc="~ParkGuard under syncMutex (line %s)" % e.line)
+            # … and not before the timeout path's call into the engine: while uncounted, a concurrent ~Transport completes its
+            # handshake and frees the engine (and Impl) under that call
+            for c in closes:
+                r.instance()
+                w = search(f, e, lambda x, c=c: x is c, eh=False)
+                r.expect(w is None, f, c, "engine call after the count was released", "connectSync calls engine->close() after its ParkGuard has already been destroyed (%s): between the unlock and the return of that call "
+                         "the caller is inside the engine but not counted in activeConnects, so a teardown from another thread can finish and free the engine under it (use-after-free)" % witness_str(f, w),
+                         okdesc="engine->close() while still counted")
 
 
 def r7(ctx, r):
